@@ -25,7 +25,9 @@ VERIF = os.path.dirname(os.path.dirname(os.path.abspath(__file__)))
 COQ = os.path.join(VERIF, 'coq')
 REPO = (os.environ.get('QUANTITY_REPO') or '/repo')
 SRC = os.path.join(REPO, 'src')
-EVID = os.path.join(VERIF, 'evidence')
+# VERIF_EVIDENCE_DIR: trials of seeded changes write their evidence elsewhere, so that the
+# committed evidence files only ever come from runs on the unchanged tree
+EVID = os.environ.get('VERIF_EVIDENCE_DIR') or os.path.join(VERIF, 'evidence')
 REPLAYS = os.path.join(EVID, 'replays')
 NCPU = min(16, os.cpu_count() or 4)
 
